@@ -29,6 +29,7 @@ func VerifNew(f Frontend, backend Backend, mode TextReadMode, grid bool) *VerifT
 	}
 	if grid {
 		t.mainScreen = newGridScreen(t.frontend)
+		t.mainScreen.setKeepsScrollback(true)
 		t.altScreen = newGridScreen(t.frontend)
 	}
 	br := bufio.NewReader(t.backend)
